@@ -17,7 +17,7 @@ from .mir import cmpcfg
 PID = "C03"
 
 FT_ALL = ["T", "Option<T>", "std::boxed::Box<T>", "std::vec::Vec<T>", "core::marker::PhantomData<T>", "&'a T", "(T, U)", "[T; N]", "fn(T) -> U", "*const T", "u8",
-          "<T as HasOut>::Out", "[u8; N]", "Option<(U, &'a u8)>", "T::Out", "Option<T::Out>"]
+          "<T as HasOut>::Out", "[u8; N]", "Option<(U, &'a u8)>", "T::Out", "Option<T::Out>", "::std::vec::Vec<T>", "::core::option::Option<(u8, U)>"]
 FT_OPS = ["T", "u8", "(T, U)", "core::marker::PhantomData<T>", "<T as HasOut>::Out", "U", "T::Out"]
 
 STUB = {
@@ -225,7 +225,8 @@ def shapes_for(trait, tier, rnd):
         out.append(Shape("enum-mixed", [("T", [], {}), ("Option<U>", [], {}), ("u8", [], {})], variants=[("A", "tuple", [0]), ("B", "named", [1, 2]), ("C", "unit", [])]))
         out.append(Shape("enum-phantom", [("core::marker::PhantomData<T>", [], {}), ("U", [], {})], variants=[("A", "tuple", [0]), ("B", "tuple", [1])]))
     if tier == "quick":
-        keep = [s for s in out if not s.label.startswith("1[")] + rnd.sample([s for s in out if s.label.startswith("1[")], 5)
+        singles = [s for s in out if s.label.startswith("1[")]
+        keep = [s for s in out if not s.label.startswith("1[")] + rnd.sample(singles, 5) + [s for s in singles if s.label == "1[::std::vec::Vec<T>]"]
         return keep
     return out
 
